@@ -4,9 +4,9 @@ CONSTANTS
   Conns = {1}
   HsKinds = {"valid"}
   TgtKinds = {"ok"}
-  MaxC = 1
-  MaxT = 1
-  MaxTok = 4
+  MaxC = 2
+  MaxT = 2
+  MaxTok = 5
   AllowBad = FALSE
   AllowSplit = FALSE
   AllowRst = FALSE
